@@ -25,10 +25,13 @@ class Item:
         self.impl = impl
         self.is_impl = is_impl
         self.leaderless = False
+        self.between = []         # non-definition commands written between a declaration and its implementing definition
         self.gt = gt              # ground truth fields (name, params, ...)
 
     def walk(self):
         yield self
+        for b in self.between:
+            yield from b.walk()
         if self.impl is not None:
             yield from self.impl.walk()
         for b in self.body or []:
@@ -36,7 +39,7 @@ class Item:
 
     def shape(self):
         """Structure with ids and literals erased (for counting distinct cases)."""
-        return [self.kind, self.doc is not None, len(self.args),
+        return [self.kind, self.doc is not None, len(self.args), [b.shape() for b in self.between],
                 self.impl.shape() if self.impl else None,
                 [b.shape() for b in self.body] if self.body is not None else None]
 
@@ -80,6 +83,8 @@ def item_tokens(it, out):
     out.append(("LP0", "("))
     out.extend(flat_arg_tokens(it.args))
     out.append(("RP0", ")"))
+    for b in it.between:
+        item_tokens(b, out)
     if it.impl is not None:
         item_tokens(it.impl, out)
     if it.body is not None:
@@ -386,7 +391,9 @@ def expected_entries(mod, trigger=":keyword"):
         elif k in ("generic", "block") and it.doc is not None:
             e = Entry("generic", it, it.cmd, join_args(it.args))
             top.append(e)
-        # children in source order: implementing definition first, then body
+        # children in source order: commands before the implementing definition, its body, then the own body
+        for b in it.between:
+            visit(b)
         if it.impl is not None:
             for b in it.impl.body or []:
                 visit(b)
